@@ -27,14 +27,16 @@ SPEC = {
     "streams": ["trees"],
     "witnesses": [],
     "rule": ("deterministic matrix: 23 awkward scalars (None, True/False, 0/1/-1, 10^18, -2^63, 0.0/-0.0/inf/-inf/NaN/5e-324, "
-             "'', '1', 'true', 'null', ' ', markup, non-BMP, trailing newline) alone / inside a list / inside a map, 14 nested "
+             "'', '1', 'true', 'null', ' ', markup, non-BMP, trailing newline) alone / inside a list / inside a map, 16 lone-surrogate "
+             "strings and 5 lone-surrogate keys (json, yaml, pickle only: measured -- these round-trip them, bson and xml raise), 14 nested "
              "empty-container and shadowing-key shapes, each x {json default/pretty on/off, pickle, yaml root_key None/'root'/"
              "a key of the tree/'', bson (when all ints are 64-bit), xml root_tag default/other}; wrong root tags; mismatched "
              "YAML root keys; 8 registry histories; 13 type attributes x 60 element texts through _from_element; 37 "
              "out-of-domain probes (counted only). Then seeded random cases: trees of depth <= 3 with ints up to 300 bits, "
              "floats from random bit patterns, strings from a pool of 60 awkward strings or random over markup/space/"
              "non-BMP characters, keys from 16 XML names; random element trees with wrong/missing/unknown types, duplicate "
-             "tags and forced py_type; random registry histories. non-trivial = non-empty tree / any element / a history "
+             "tags and forced py_type; random registry histories; random trees with lone surrogates injected in value, list-item "
+             "and key positions (never a high surrogate directly before a low one) for json/yaml/pickle. non-trivial = non-empty tree / any element / a history "
              "with a lookup; distinct = distinct case"),
     "trusted_base": [KERNEL, "Print Assumptions: closed under the global context (no axioms)", TIE, HARNESS,
                      "modelled, not verified: str(float)/float(str) (per-case tables measured with repr()/float() directly; law "
@@ -51,6 +53,9 @@ SPEC = {
         "implements XML 1.0 4th-edition NCNames: e.g. U+0132 is rejected although it is a 5th-edition name start character); "
         "the accepted-name set is a parameter (l_name_ok) of the theorems",
         "BSON domain: integers in [-2^63, 2^64), keys without NUL; YAML compares order-insensitively (PyYAML sorts keys)",
+        "lone surrogate code points (os.fsdecode of undecodable names) are inside the representable domain of json, yaml and "
+        "pickle (measured on the unchanged tree: values and keys round-trip) and outside that of bson (UnicodeEncodeError) and "
+        "xml (ExpatError); a high surrogate directly followed by a low one is outside json's domain (json.loads joins the pair)",
         "int(text) is modelled for ASCII/whitespace text only (CPython accepts 670 non-ASCII digits: Unmodelled, never generated); "
         "integers printed by str() are limited by sys.int_max_str_digits (4300 digits) in CPython >= 3.11: generated integers "
         "stay below 2^300",
